@@ -3306,9 +3306,17 @@ class StateEngine(object):
                 return
 
             """
-            Publish any new state change before acknowledging the events.
+            Publish any new state change, or end the execution, before
+            acknowledging the events. Ending the execution deletes the Parallel
+            or Map branch results for the current execution, but the event_ids
+            list referenced here remains valid, so the held events can still be
+            acknowledged afterwards. Acknowledging them first would mean that
+            for a moment nothing (no unacknowledged event) represents the
+            execution, so a failure at that point would silently lose it.
             """
-            if not state.get("End"):
+            if state.get("End"):
+                handle_terminal_state(state_type, event)
+            else:
                 error_type, error_message = self.change_state(
                     state_machine, state_type, state.get("Next"), event
                 )
@@ -3319,13 +3327,6 @@ class StateEngine(object):
             #print("Result - event_ids:")
             #print(event_ids)
             self.acknowledge_event_list(event_ids)
-
-            """
-            Need to do this *after* acknowledging the events as it deletes the
-            Parallel or Map branch results for the current execution.
-            """
-            if state.get("End"):
-                handle_terminal_state(state_type, event)
 
 
         """
